@@ -556,7 +556,7 @@ def _sequences(sub, where="top"):
             yield from _sequences(av[1], "lookbehind")  # look-arounds consume nothing
 
 
-@rule("C01.line-count", min_instances=3)
+@rule("C01.line-count", min_instances=3, props=["C11"])
 def line_count(ctx):
     """match_reg advances the line counter by the newlines in exactly the consumed span and computes the column from the old cursor"""
     db = ctx.db
